@@ -1,0 +1,35 @@
+//go:build verif
+
+package verifspec
+
+// Lemmas: ghost functions whose contracts (in contracts_verif.go) state facts about the
+// grammar that need induction. Their bodies are the induction schemes; they are verified
+// like any other function and used by `hint` clauses.
+
+// LemmaFixedElems: n values of a fixed-size type occupy exactly n*Fixed(t) bytes, if they fit.
+func LemmaFixedElems(b []byte, t int8, n int, d int) {
+	if n <= 0 {
+		return
+	}
+	l := ValLenD(b, t, d-1)
+	if l < 0 {
+		return
+	}
+	LemmaFixedElems(From(b, l), t, n-1, d)
+}
+
+// LemmaFixedPairs: n pairs of fixed-size key and value occupy n*(Fixed(kt)+Fixed(vt)) bytes, if they fit.
+func LemmaFixedPairs(b []byte, kt, vt int8, n int, d int) {
+	if n <= 0 {
+		return
+	}
+	k := ValLenD(b, kt, d-1)
+	if k < 0 {
+		return
+	}
+	v := ValLenD(From(b, k), vt, d-1)
+	if v < 0 {
+		return
+	}
+	LemmaFixedPairs(From(b, k+v), kt, vt, n-1, d)
+}
